@@ -637,6 +637,10 @@ class Interp:
                     if len(args) == 2:
                         return args[1]
                     raise ModelRaise("StopIteration()")
+            if nm == "zip" and args and all(isinstance(a, (list, tuple, ModelIter)) for a in args) and not kwargs:
+                # the built-in itself over the model's iterators: it draws from its arguments left to right and stops at the first
+                # exhausted one (an element already drawn from an earlier argument is lost - which is what a rule may be about)
+                return ModelIter(zip(*[(a.py if isinstance(a, ModelIter) else iter(list(a))) for a in args]))
             if nm == "count" and len(args) <= 2 and all(isinstance(a, int) and not isinstance(a, bool) for a in args):
                 import itertools as _it
                 return ModelIter(_it.count(*args))
